@@ -46,6 +46,9 @@ checks = {
  "C11": ("exploration", "exhaustive enumeration of a structured value space through json/unjson and msgpack/unmsgpack, with encoding/json as independent judge of the JSON text",
          "nil, bools, boundary ints, ~190 finite floats, every 1-char string over ASCII/Latin-1 + representatives (thorough: all Unicode scalars) and all 2-char adversarial strings, as scalars, in arrays, in hashes and named records (1 key x every scalar, 3 keys in all 6 orders, nested, awkward field names) and in string-keyed hashes; round trips equal the value incl. record type names and key order at every level; (json v) is accepted by encoding/json and denotes the same data",
          "NaN/Inf excluded; string-keyed hashes judged on the JSON text only; bounded nesting", "§3 C11"),
+ "C17": ("model_checking", "explicit-state BFS over histories of writes to a declared struct instance through every write route, against a declaration model",
+         "all histories of depth 2 (thorough 3) over ~590 operations: 8 field names x 13 value kinds x {hset, set with dot path, infix dot assignment, construction}, non-symbol keys, nested dot paths, writes through pointers, derefSet, msgmap, decoding hand-written JSON/msgpack texts, round trips, redeclaration; after every step the instance has only declared fields once each under symbol keys and every non-nil value has the declared kind under the definition in force at creation; failed writes leave the instance unchanged",
+         "only the safety direction is judged plus the acceptance cases the property names; one instance under observation", "§3 C17"),
 }
 all_ids = ["C%02d" % i for i in range(1, 21)]
 pending = {i: "check not built yet in this tree (see DESIGN.md §7 build order); will be claimed when its machinery lands" for i in all_ids if i not in checks}
